@@ -187,8 +187,8 @@ type c05Peer struct {
 	sentBytes [][]byte
 	requests  int
 	inter     int
-	withhold  bool   // answer nothing this time, but keep the genuine response
-	held      []byte // genuine response that was withheld
+	withhold  bool                                                 // answer nothing this time, but keep the genuine response
+	held      []byte                                               // genuine response that was withheld
 	wrap      func(payload []byte, rq *c05Req, mut *c05Mut) []byte // transport framing (SCION); nil for IP
 	unwrap    func(b []byte) (payload []byte, ok bool)
 }
@@ -638,7 +638,10 @@ func init() {
 					spy.mu.Unlock()
 					w := map[string]any{"client": name, "steps": []string{"genuine: " + fmt.Sprint(e1), "response withheld: " + fmt.Sprint(e2), "replay with appended id, then genuine: " + fmt.Sprint(e3)}, "offset": off.String()}
 					if os.Getenv("VERIF_DEBUG") != "" {
-						if f, err := os.OpenFile("/tmp/c05dbg.log", os.O_APPEND|os.O_CREATE|os.O_WRONLY, 0o644); err == nil { fmt.Fprintln(f, "DEBUG", w); f.Close() }
+						if f, err := os.OpenFile("/tmp/c05dbg.log", os.O_APPEND|os.O_CREATE|os.O_WRONLY, 0o644); err == nil {
+							fmt.Fprintln(f, "DEBUG", w)
+							f.Close()
+						}
 					}
 					if e3 == nil && !ts.IsZero() {
 						if k, ok := c05Identify(off, 1); ok && k == 0 {
